@@ -411,6 +411,64 @@ pub fn run(tier: Tier) -> i32 {
             });
         }
     }
+    // ---- the same fault at two sites of one stream: the later occurrence is reported like the first (single-link
+    //      witnesses; sites = the first applicable one and the last one; faults that do not change packet lengths)
+    {
+        struct J2<'a> {
+            w: &'a Witness,
+            f: &'a Fault,
+            s1: (usize, usize, Option<usize>),
+            s2: (usize, usize, Option<usize>),
+            mode: Mode,
+        }
+        let mut j2: Vec<J2> = Vec::new();
+        for w in ws.iter().filter(|w| w.links.len() == 1) {
+            for f in cat.iter().filter(|f| !matches!(f.site, faults::Site::Padding | faults::Site::SameOrbitHbf)) {
+                let all = sites(w, f);
+                if all.len() < 2 {
+                    continue;
+                }
+                let (s1, s2) = (all[0], all[all.len() - 1]);
+                if s1.1 == s2.1 {
+                    continue; // two sites in one packet: the second word may be shadowed by the first error
+                }
+                for mode in val::ALL_MODES {
+                    if (mode == Mode::AllStave) != w.stave || !f.scope.active(mode) {
+                        continue;
+                    }
+                    j2.push(J2 { w, f, s1, s2, mode });
+                }
+            }
+        }
+        let r2 = par_map(&j2, |_, j| {
+            let m1 = mutate(j.w, j.f, j.s1);
+            let mut links: Vec<Vec<PacketT>> = vec![Vec::new(); j.w.links.len()];
+            for (k, (_, p)) in m1.packets.iter().enumerate() {
+                links[j.w.order[k]].push(p.clone());
+            }
+            let w1 = Witness { name: j.w.name, links, order: j.w.order.clone(), stave: j.w.stave };
+            let m2 = mutate(&w1, j.f, j.s2);
+            let (msgs, panic) = run_dispatched(&m2.packets, j.mode);
+            if let Some(p) = panic {
+                return Some((format!("panic:{}", val::panic_site(&p)), p));
+            }
+            let first = family_hit(&msgs, j.f.families, m1.site_offset);
+            let second = family_hit(&msgs, j.f.families, m2.site_offset);
+            if !first || !second {
+                return Some((
+                    format!("missed-on-repetition:{}:{}", j.f.name, if !second { "second" } else { "first" }),
+                    format!("the same fault at {:#x} and {:#x}: reported at the first = {first}, at the second = {second} [{} | {} | {}]", m1.site_offset, m2.site_offset, m1.desc, m2.desc, j.mode.name()),
+                ));
+            }
+            None
+        });
+        for (j, r) in j2.iter().zip(r2.iter()) {
+            if let Some((sig, d)) = r {
+                rep.violation(Violation { signature: sig.clone(), description: d.clone(), replay: json!({"kind": "repetition", "fault": j.f.name, "mode": j.mode.name(), "witness": j.w.name}) });
+            }
+        }
+        rep.cov("same_fault_twice_cases", json!(j2.len()));
+    }
     rep.cov("evaluations", json!(jobs.len()));
     rep.cov("distinct_nontrivial", json!(active));
     rep.cov("faults", json!(cat.len()));
